@@ -98,6 +98,8 @@ def structures(draw, max_atoms=300, full_rank_only=False, allow_zero_periodic=Tr
     if draw(st.integers(0, 4)) == 0:
         # the cell is the tight bounding box along the non-periodic directions: atoms lie exactly ON the lower and upper faces
         d["tightbox"] = True
+    if draw(st.integers(0, 3)) == 0:
+        d["payload"] = draw(seeds)      # FixAtoms on a subset, tags, magmoms, charges attached to the Atoms object
     d["max_atoms"] = max_atoms
     return d
 
@@ -246,6 +248,9 @@ def build(d):
             if d["zero"][i]:
                 c[i] = 0.0
         s.set_cell(c, scale_atoms=False)
+    if d.get("payload") is not None:
+        s.set_constraint()
+        gc.attach_payload(s, d["payload"])
     return s
 
 
@@ -277,4 +282,6 @@ def labels(d, s):
         out.append("tightbox")
     if d.get("ideal_thin"):
         out.append("ideal-thin-supercell")
+    if d.get("payload") is not None:
+        out.append("payload:constraints+tags+magmoms")
     return out
